@@ -10,6 +10,7 @@ import (
 	"encoding/json"
 	"errors"
 	"fmt"
+	"io/fs"
 	"reflect"
 	"runtime"
 	"sync"
@@ -479,6 +480,9 @@ func (e *Engine) panicHandler(ev any, ht reflect.Type, val any) {
 }
 
 func describePanic(v any) string {
+	if rv := reflect.ValueOf(v); rv.IsValid() && rv.Kind() == reflect.Pointer && rv.IsNil() {
+		return "nilptr:" + rv.Type().String()
+	}
 	switch x := v.(type) {
 	case string:
 		return "string:" + x
@@ -507,6 +511,8 @@ func expectPanicDesc(kind, reg int, eid uint64) string {
 		return fmt.Sprintf("struct:%d:%d", reg, eid)
 	case 4, 5:
 		return "runtime"
+	case 6:
+		return "nilptr:*fs.PathError"
 	}
 	return ""
 }
@@ -524,6 +530,9 @@ func doPanic(kind, reg int, eid uint64) {
 		_ = p.EID // nil dereference
 	case 5:
 		panic(nil)
+	case 6:
+		var e *fs.PathError // a typed nil error: calling its Error method panics
+		panic(e)
 	}
 }
 
